@@ -156,7 +156,7 @@ Qed.
 (** ** monotone facts about jobs (C04, C07, C15, C16) *)
 Lemma sys_step_mono s e s' r : reach s → step s e = Some (s', r) → no_restart e → state_mono (abs s) (abs s').
 Proof.
-  intros Hr Hs Hnr. destruct (refine_step s e s' r (reach_inv _ Hr) (reach_store_ok _ Hr) Hs) as [[-> _]|(re & Hre & _ & Hrs)].
+  intros Hr Hs Hnr. destruct (refine_step s e s' r (reach_inv _ Hr) (reach_store_ok _ Hr) Hs) as [[-> _]|(re & Hre & _ & Hrs & _)].
   - apply state_mono_refl.
   - eapply rstep_mono; [done|]. intros js ->. by apply Hnr, (Hrs js).
 Qed.
